@@ -257,11 +257,74 @@ theorem scanPar_unclosed : ∀ (rest : Str) (d : Nat) (left : Str) (args : List 
         · exact ih _ _ _ h
         · exact ih _ _ _ h
 
+/-- scanning over a balanced text without a depth-1 comma returns to depth 1 -/
+theorem scanPar_over (tail : Str) : ∀ (inner : Str) (d : Nat) (left : Str) (args : List Str),
+    innerOk inner d = true →
+    scanPar (inner ++ tail) d left args = scanPar tail 1 (inner.reverse ++ left) args := by
+  intro inner
+  induction inner with
+  | nil =>
+    intro d left args h
+    simp only [innerOk, beq_iff_eq] at h
+    subst h
+    simp
+  | cons c r ih =>
+    intro d left args h
+    rw [List.cons_append, scanPar]
+    unfold innerOk at h
+    by_cases h1 : c = '('
+    · simp only [h1, if_true] at h ⊢
+      rw [ih _ _ _ h]; simp
+    · by_cases h2 : c = ','
+      · subst h2
+        simp only [h1, if_false, if_true, Bool.and_eq_true, bne_iff_ne, ne_eq] at h
+        have h3 : ¬ (',' : Char) = ')' := by decide
+        simp only [h1, if_false, h.1, and_false, h3]
+        rw [ih _ _ _ h.2]; simp
+      · by_cases h3 : c = ')'
+        · subst h3
+          simp only [h1, h2, if_false, if_true, Bool.and_eq_true, bne_iff_ne, ne_eq] at h
+          simp only [h1, if_false, if_true, h.1]
+          rw [ih _ _ _ h.2]; simp
+        · simp only [h1, h2, h3, if_false] at h
+          have hd : ¬ (c = ',' ∧ d = 1) := fun hh => h2 hh.1
+          simp only [h1, h3, hd, if_false]
+          rw [ih _ _ _ h]; simp
+
+/-- the scan only adds arguments -/
+theorem scanPar_args_len : ∀ (right : Str) (d : Nat) (left : Str) (args : List Str)
+    (r : List Str × Str), scanPar right d left args = .ok r → args.length + 1 ≤ r.1.length
+  | [], _, _, _, _, h => by simp [scanPar] at h
+  | c :: rest, depth, left, args, r, h => by
+    unfold scanPar at h
+    split at h
+    · exact scanPar_args_len rest _ _ _ r h
+    · split at h
+      · have := scanPar_args_len rest _ _ _ r h; simp at this; omega
+      · split at h
+        · split at h
+          · cases h; simp
+          · exact scanPar_args_len rest _ _ _ r h
+        · exact scanPar_args_len rest _ _ _ r h
+
+/-- a comma at depth 1 of a group: the scan fails or returns two or more arguments -/
+theorem scanPar_comma (inner1 rest : Str) (h : innerOk inner1 1 = true) :
+    (∃ e, scanPar (inner1 ++ ',' :: rest) 1 [] [] = .error e) ∨
+    (∃ as r, scanPar (inner1 ++ ',' :: rest) 1 [] [] = .ok (as, r) ∧ 2 ≤ as.length) := by
+  rw [scanPar_over _ inner1 1 [] [] h, scanPar]
+  simp only [show ¬ (',' : Char) = '(' by decide, if_false, true_and, if_true]
+  cases hs : scanPar rest 1 [] ([] ++ [strip (inner1.reverse ++ []).reverse]) with
+  | error e => exact Or.inl ⟨e, rfl⟩
+  | ok r =>
+    have := scanPar_args_len _ _ _ _ r hs
+    exact Or.inr ⟨r.1, r.2, rfl, by simpa using this⟩
+
 /-- A text with a refused operand at a place the scan reaches, or with a group that is never
     closed.  `first`: the operand stands at the start (up to blanks) and is followed by the end of
     the text or `(`, `*`, `/`.  `afterOp`: behind an operator sign after any parenthesis-free
     text.  `inPar` / `afterPar`: inside, or behind, the first parenthesised group (single
-    argument).  `open`: the first `(` has no matching `)`. -/
+    argument).  `open`: the first `(` has no matching `)`.  `comma`: the first group has a comma
+    at depth 1 (several arguments). -/
 inductive BadText (T : Tables) : Str → Prop
   | first (piece post : Str) : tokPlain piece → stopsAt post → strip piece ≠ [] →
       (∃ e, atomParse T (strip piece) = .error e) → BadText T (piece ++ post)
@@ -272,6 +335,8 @@ inductive BadText (T : Tables) : Str → Prop
   | afterPar (pre inner tail : Str) : '(' ∉ pre → innerOk inner 1 = true →
       BadText T tail → BadText T (pre ++ '(' :: (inner ++ ')' :: tail))
   | «open» (pre rest : Str) : '(' ∉ pre → unclosed rest 1 = true → BadText T (pre ++ '(' :: rest)
+  | comma (pre inner1 rest : Str) : '(' ∉ pre → innerOk inner1 1 = true →
+      BadText T (pre ++ '(' :: (inner1 ++ ',' :: rest))
 
 theorem solve_of_tokenize_error (T : Tables) (arg : Str)
     (h : ∀ (f : Nat) (toks : List Tok), ∃ err, tokenize T f arg [] toks = .error err) (f : Nat) :
@@ -346,6 +411,26 @@ theorem BadText.tokenize_error {T : Tables} {s : Str} (h : BadText T s) :
       cases hfl : flushLeft T left toks with
       | error e => exact ⟨e, by simp⟩
       | ok toks1 => exact ⟨.paren, by simp [hscan]⟩
+
+  | comma pre inner1 rest hnp hin =>
+    intro f toks
+    refine tokenize_walk T _ ?_ pre hnp f [] toks
+    intro f left toks
+    cases f with
+    | zero => exact ⟨.fuel, tokenize_zero T _ _ _⟩
+    | succ f' =>
+      rw [tokenize]
+      cases hfl : flushLeft T left toks with
+      | error e => exact ⟨e, by simp⟩
+      | ok toks1 =>
+        rcases scanPar_comma inner1 rest hin with ⟨e, he⟩ | ⟨as, r, he, hlen⟩
+        · exact ⟨e, by simp [he]⟩
+        · refine ⟨.paren, ?_⟩
+          simp only [if_true, he]
+          match as, hlen with
+          | [], h => simp at h
+          | [x], h => simp at h
+          | x :: y :: zs, _ => rfl
 
 theorem unitSolver_badText (T : Tables) (s : Str) (h : BadText T s) :
     ∃ err, unitSolver T s = .error err := by
